@@ -137,6 +137,11 @@ def discharge(ob, both=False, use_cvc5=True):
         if ra == "unsat":
             ob.verdict, ob.backend = "discharged", "z3-arith-abstraction"
             return ob
+        rs_, dts = run_z3_strabs(ob)
+        ob.time += dts
+        if rs_ == "unsat":
+            ob.verdict, ob.backend = "discharged", "z3-strings-as-uninterpreted"
+            return ob
         if use_cvc5:
             r2, dt2, why = run_cvc5(ob)
             ob.time += dt2
@@ -162,3 +167,138 @@ def discharge(ob, both=False, use_cvc5=True):
         return ob
     ob.verdict, ob.backend, ob.model = "refuted", "z3", model
     return ob
+
+
+# ---------------------------------------------------------------------------------------------------------------
+# "strings as an uninterpreted sort": a generalisation used only for proving (unsat).  Every String term becomes a
+# term of an uninterpreted sort U, string literals become pairwise distinct constants, string operations become
+# uninterpreted functions.  Every model of the original formula induces a model of the translated one, so unsat of
+# the translation implies unsat of the original.  z3 is far more reliable on EUF + arrays + LIA + quantifiers than on
+# the same formula mixed with the sequence solver over strings.
+class _NoAbs(Exception):
+    pass
+
+
+def abstract_strings(exprs):
+    U = z3.DeclareSort("StrU")
+    lits = {}
+    ufs = {}
+    cache = {}
+
+    def ts(s):
+        k = s.kind()
+        if k == z3.Z3_SEQ_SORT:
+            if s.is_string():
+                return U
+            return z3.SeqSort(ts(s.basis()))
+        if k == z3.Z3_ARRAY_SORT:
+            return z3.ArraySort(ts(s.domain()), ts(s.range()))
+        return s
+
+    def uf(name, arg_sorts, res_sort):
+        key = (name, tuple(str(a) for a in arg_sorts), str(res_sort))
+        if key not in ufs:
+            ufs[key] = z3.Function(f"{name}!u{len(ufs)}", *(list(arg_sorts) + [res_sort]))
+        return ufs[key]
+
+    def go(e):
+        k = e.get_id()
+        if k in cache:
+            return cache[k]
+        r = go1(e)
+        cache[k] = r
+        return r
+
+    def go1(e):
+        if z3.is_quantifier(e):
+            if e.is_lambda():
+                raise _NoAbs()
+            n = e.num_vars()
+            ovars = [z3.Const(f"{e.var_name(i)}", e.var_sort(i)) for i in range(n)]
+            body = z3.substitute_vars(e.body(), *reversed(ovars))
+            nb = go(body)
+            nvars = [z3.Const(f"{e.var_name(i)}", ts(e.var_sort(i))) for i in range(n)]
+            # the translated body mentions the translated constants of the same names
+            return z3.ForAll(nvars, nb) if e.is_forall() else z3.Exists(nvars, nb)
+        if z3.is_var(e):
+            raise _NoAbs()
+        if not z3.is_app(e):
+            raise _NoAbs()
+        if z3.is_string_value(e):
+            v = e.as_string()
+            if v not in lits:
+                lits[v] = z3.Const(f"strlit!{len(lits)}", U)
+            return lits[v]
+        d = e.decl()
+        dk = d.kind()
+        ch = [go(c) for c in e.children()]
+        osorts = [c.sort() for c in e.children()]
+        nsorts = [c.sort() for c in ch]
+        rs = ts(e.sort())
+        if e.num_args() == 0:
+            if dk == z3.Z3_OP_UNINTERPRETED:
+                return z3.Const(d.name(), rs)
+            if dk == z3.Z3_OP_SEQ_EMPTY:
+                return z3.Empty(rs) if rs.kind() == z3.Z3_SEQ_SORT else uf("empty", [], rs)
+            if rs.eq(e.sort()):
+                return e
+            raise _NoAbs()
+        same = all(a.eq(b) for a, b in zip(osorts, nsorts)) and rs.eq(e.sort())
+        if same:
+            return d(*ch)
+        if dk == z3.Z3_OP_EQ:
+            return ch[0] == ch[1]
+        if dk == z3.Z3_OP_DISTINCT:
+            return z3.Distinct(*ch)
+        if dk == z3.Z3_OP_ITE:
+            return z3.If(ch[0], ch[1], ch[2])
+        if dk == z3.Z3_OP_SELECT:
+            return z3.Select(ch[0], ch[1])
+        if dk == z3.Z3_OP_STORE:
+            return z3.Store(ch[0], ch[1], ch[2])
+        if dk == z3.Z3_OP_CONST_ARRAY:
+            return z3.K(rs.domain(), ch[0])
+        if dk == z3.Z3_OP_UNINTERPRETED:
+            return uf(d.name(), nsorts, rs)(*ch)
+        # sequence operations: native when the (translated) sequence is still a sequence, uninterpreted otherwise
+        first_is_seq = nsorts and nsorts[0].kind() == z3.Z3_SEQ_SORT
+        if first_is_seq:
+            if dk == z3.Z3_OP_SEQ_LENGTH:
+                return z3.Length(ch[0])
+            if dk == z3.Z3_OP_SEQ_NTH:
+                return ch[0][ch[1]]
+            if dk == z3.Z3_OP_SEQ_CONCAT and all(s.kind() == z3.Z3_SEQ_SORT for s in nsorts):
+                return z3.Concat(*ch)
+            if dk == z3.Z3_OP_SEQ_CONTAINS:
+                return z3.Contains(ch[0], ch[1])
+            if dk == z3.Z3_OP_SEQ_EXTRACT:
+                return z3.SubSeq(ch[0], ch[1], ch[2])
+            if dk == z3.Z3_OP_SEQ_PREFIX:
+                return z3.PrefixOf(ch[0], ch[1])
+            if dk == z3.Z3_OP_SEQ_SUFFIX:
+                return z3.SuffixOf(ch[0], ch[1])
+            if dk == z3.Z3_OP_SEQ_INDEX:
+                return z3.IndexOf(ch[0], ch[1], ch[2])
+            if dk == z3.Z3_OP_SEQ_AT:
+                return uf("seq_at", nsorts, rs)(*ch)
+        if dk == z3.Z3_OP_SEQ_UNIT:
+            return z3.Unit(ch[0])
+        return uf(d.name(), nsorts, rs)(*ch)
+
+    out = [go(e) for e in exprs]
+    if len(lits) > 1:
+        out.append(z3.Distinct(*lits.values()))
+    return out
+
+
+def run_z3_strabs(ob, timeout_ms=6000):
+    t = time.time()
+    try:
+        fs = abstract_strings(ob.hyps + [z3.Not(ob.goal)])
+        s = z3.Solver()
+        s.set("timeout", timeout_ms)
+        s.add(fs)
+        r = s.check()
+    except (_NoAbs, z3.Z3Exception, Exception):
+        return "unknown", time.time() - t
+    return ("unsat" if r == z3.unsat else "unknown"), time.time() - t
